@@ -230,3 +230,23 @@ Theorem C17_transform_point_index_refuted :
      (unitv Zops1 0) 0.
 Proof. exact transform_point_index_refuted. Qed.
 Print Assumptions C17_transform_point_index_refuted.
+
+(* Reuse of the trial-side transforms on the test side (make_scalar_hypersingular: target_curls_trans =
+   source_curls_trans; Maxwell: dual_rwg_map from the domain).  The condition in the current source is regenerated by
+   translators/fmm_indexing.py (fails closed unless it is equality of the two SPACES).  Sound under space equality: *)
+Theorem C17_reuse_sound_under_space_equality :
+  forall (A : Type) (RO : ops A) (ver : fmm_version)
+         (G4 : vec3 A -> vec3 A -> nat -> A) (g : geom) (s : space) (E : list nat) (nEs : nat) (quad : list qpt)
+         (nbrs : nat -> list nat) (x : nat -> A) (I : nat),
+  curl_part_shared RO ver G4 g g s E nEs quad nbrs x I = curl_part RO ver G4 g g s s E E nEs quad nbrs x I /\
+  rwg_part_shared RO ver G4 g g s E nEs quad nbrs x I = rwg_part RO ver G4 g g s s E E nEs quad nbrs x I.
+Proof. exact @reuse_sound_under_space_equality. Qed.
+Print Assumptions C17_reuse_sound_under_space_equality.
+
+(* ... and not under equality of the grids only: same geometry, support and dof map, swapped normals on the test side *)
+Theorem C17_reuse_unsound_on_equal_grids :
+  curl_part_shared Zops1 fixed_version w_G4 w_geom w_geom w_space [0; 2] 3 w_quad w_nbrs (unitv Zops1 0) 0 <>
+  curl_part Zops1 fixed_version w_G4 w_geom w_geom w_space_swapped w_space [0; 2] [0; 2] 3 w_quad w_nbrs
+     (unitv Zops1 0) 0.
+Proof. exact reuse_unsound_on_equal_grids. Qed.
+Print Assumptions C17_reuse_unsound_on_equal_grids.
